@@ -379,6 +379,55 @@ def _check_copy_independence(case):
     return n, "ok", (ftype, op[0]), viols
 
 
+def _edit(target, op, width, rate):
+    k = op[0]
+    if k == "cat":
+        return call(target.concatenate, W.pack(MARK, width))
+    if k == "ins":
+        return call(target.insert, op[1] / rate, W.pack(MARK, width))
+    if k == "del":
+        return call(target.deleteSegment, op[1] / rate, op[2] / rate)
+    if k == "rep":
+        return call(target.replaceSegment, op[1] / rate, op[2] / rate, W.pack(MARK, width))
+    return None
+
+
+def _check_shared_frames(case):
+    """audio handed from one Wav to others (its frames attribute, a getFrames stretch, getSubwav().frames) after an edit: two recordings
+    built from the same piece stay independent - editing one changes neither the other, nor the piece, nor the recording it came from"""
+    width, rate, smp, op1, how, op2 = case
+    w = audio.Wav(W.pack(list(smp), width), [1, width, rate, len(smp), "NONE", "not compressed"])
+    _edit(w, op1, width, rate)
+    n = len(w.frames) // width
+    st, piece, _ = call(lambda: w.frames) if how == "frames" else call(w.getFrames, 1 / rate, (n - 1) / rate) if how == "getFrames" \
+        else call(lambda: w.getSubwav(0.0, n / rate).frames)
+    tag = f"Wav({list(smp)}, width {width}) after {op1}: piece = {how}; a = Wav(piece), b = Wav(piece); a.{op2}"
+    if st == "exc":
+        return 1, "X", None, [Viol("piece-raised:" + type(piece).__name__, f"{tag}: {piece!r}")]
+    np_ = len(piece) // width
+    a = audio.Wav(piece, [1, width, rate, np_, "NONE", "not compressed"])
+    b = audio.Wav(piece, [1, width, rate, np_, "NONE", "not compressed"])
+    before = (bytes(piece), bytes(b.frames), bytes(w.frames))
+    _edit(a, op2, width, rate)
+    after = (bytes(piece), bytes(b.frames), bytes(w.frames))
+    viols = []
+    if after != before:
+        who = "the piece itself" if after[0] != before[0] else "the second recording built from it" if after[1] != before[1] else "the recording it came from"
+        k = 0 if after[0] != before[0] else 1 if after[1] != before[1] else 2
+        viols.append(Viol("edit-leaks-through-shared-audio", f"{tag} changed {who}: {W.unpack(before[k], width)} -> {W.unpack(after[k], width)}"))
+    return 2, "ok", (op1[0], how, op2[0]), viols
+
+
+def _shared_cases():
+    ops = (("none",), ("cat",), ("ins", 0), ("ins", 2), ("del", 1, 3), ("rep", 1, 3))
+    for width, rate in ((2, 8), (1, 8000)):
+        for smp in ((1, 2, 3, 4, 5, 6),):
+            for op1 in ops:
+                for how in ("frames", "getFrames", "getSubwav"):
+                    for op2 in ops[1:]:
+                        yield (width, rate, smp, op1, how, op2)
+
+
 def _copy_cases():
     for width, rate in ((2, 8), (1, 8000)):
         for smp in ((1, 2, 3, 4), ()):
@@ -464,6 +513,10 @@ def parts(tier):
         InputPart("copy-independence", _copy_cases, _check_copy_independence,
                   rule="Wav.new() and getSubwav() of recordings handed over as bytes and as bytearray x 7 edits applied to the copy and to the source: the other "
                        "object keeps every sample", bounds={}),
+        InputPart("audio-shared-between-recordings", _shared_cases, _check_shared_frames,
+                  rule="6 first edits (none, concatenate, insert, deleteSegment, replaceSegment) x the audio taken as .frames / getFrames / "
+                       "getSubwav().frames x two recordings built from that piece x 5 edits of the first: the piece, the second recording and the "
+                       "recording it came from keep every sample", bounds={}),
         InputPart("edit-large-recordings", lambda: _edit_large_cases(quick), _check_edit_large,
                   rule="one insert / insert-then-delete / deleteSegment / replaceSegment / getSubwav / concatenate on recordings of 1025 .. 65537 "
                        "(thorough 131073) samples, 3 (width, rate) pairs, at the first, second, middle, last sample and the end: same list model",
